@@ -111,6 +111,59 @@ def wrapper_outcome(w):
     return fm, fs
 
 
+class ShortReadSource:
+    """A file-like source that, like a pipe or socket, may return fewer
+    bytes than asked for: read k returns exactly sizes[k] bytes (never more
+    than requested), then b'' at EOF."""
+
+    def __init__(self, data, sizes):
+        self._data = data
+        self._sizes = [s for s in sizes]
+        self._k = 0
+        self._pos = 0
+        self.closed = False
+        self.reads = 0
+
+    def read(self, size=-1):
+        self.reads += 1
+        if self._k < len(self._sizes):
+            n = self._sizes[self._k]
+            self._k += 1
+        else:
+            n = len(self._data) - self._pos
+        if size is not None and size >= 0:
+            n = min(n, size)
+        out = self._data[self._pos:self._pos + n]
+        self._pos += len(out)
+        return out
+
+    def tell(self):
+        return self._pos
+
+    def close(self):
+        self.closed = True
+
+
+import contextlib
+
+
+@contextlib.contextmanager
+def inspector_loglevel(level):
+    """Run with the inspector's logger at `level` (e.g. 'DEBUG'): what the
+    library concludes must not depend on the logging configuration."""
+    import logging
+    if not level:
+        yield
+        return
+    lg = logging.getLogger('oslo_utils.imageutils.format_inspector')
+    saved = lg.level
+    lg.setLevel(getattr(logging, level))
+    try:
+        yield
+    finally:
+        lg.setLevel(saved)
+
+
 def drive_wrapper(data, schedule, mode='read', expected=None, allowed=None,
                   sample=False):
     """Read `data` through InspectWrapper with the given read sizes.
@@ -122,14 +175,22 @@ def drive_wrapper(data, schedule, mode='read', expected=None, allowed=None,
     samples = []
     got = []
     err = None
-    if mode == 'read':
-        src = io.BytesIO(data)
+    if mode in ('read', 'short'):
+        sizes = chunking.sizes_of(schedule, len(data))
+        if mode == 'short':
+            # pipe-like source: the reader always asks for 64 KiB and gets
+            # what the schedule says
+            src = ShortReadSource(data, sizes)
+            asks = [max(65536, sz + 1) for sz in sizes]
+        else:
+            src = io.BytesIO(data)
+            asks = sizes
         w = F.InspectWrapper(src, expected_format=expected,
                              allowed_formats=allowed)
         try:
             if sample:
                 samples.append(wrapper_outcome(w))      # before any read
-            for sz in chunking.sizes_of(schedule, len(data)):
+            for sz in asks:
                 got.append(w.read(sz))
                 if sample:
                     samples.append(wrapper_outcome(w))
